@@ -47,6 +47,9 @@ CHECKS = [
  chk('C12', 'coverage-guided libFuzzer (ASan+UBSan) with in-target oracle + rapidcheck structure-aware TZif mutations + init-pattern differential',
      'arbitrary bytes served through a custom ZoneInfoSource: sanitizer/assert clean, terminates (per-input alarm, hangs confirmed by 3 timed replays), failed loads leave UTC, same bytes loaded twice give the same outcome and the same fingerprint over a probe panel; corpus + mutants re-run through -ftrivial-auto-var-init=pattern vs =zero builds whose outputs must agree.',
      'Sanitizers decide memory safety/UB for the executions that ran; libFuzzer campaigns are only approximately reproducible (saved artifacts are the reproducible unit). Inputs declaring > 128 KiB of data are skipped and counted.', 'DESIGN.md §5 C12'),
+ chk('C13', 'rapidcheck-generated multi-threaded workloads under ThreadSanitizer with single-threaded re-execution as reference',
+     'k = 2..16 (thorough: ..64) threads released together, each with a generated operation list over fresh overlapping names (valid, missing, garbage, fixed, UTC, file paths): loads, lookups both ways on shared zones across different transitions, transition queries, format, parse, utc/fixed/local factories. TSan must stay silent, every value must equal the single-threaded re-execution, all loaders of a name hold equal zones.',
+     'TSan only sees interleavings that ran (sampled schedules, not enumerated); loader critical-section schedules are enumerated by C20 on the same code path. A report/mismatch is a positive observation (any of 3 x 15 re-runs confirms).', 'DESIGN.md §5 C13'),
  chk('C14', 'hint-state enumeration + rapidcheck call sequences against a fresh copy + cache model with counting data source',
      'every table interval is made the remembered hint before each probe (both directions) and answers compared with the history-free model; generated call sequences answered in order vs a fresh copy in reverse order; generated load() sequences checked against a name-cache model.',
      ZN, 'DESIGN.md §5 C14'),
@@ -73,6 +76,12 @@ CHECKS = [
      'Every day of a 400-year window (146097 days) x 7 weekdays is enumerated for each window; windows cover the '
      'int64 year extremes, negative years and rapidcheck-generated start years. Exhaustive per window, sampled over windows.',
      'Trusts refcal.h (independent 128-bit era algorithm, cross-checked against glibc at setup).', 'DESIGN.md §5 C17'),
+ chk('C19', 'exhaustive environment/name matrix in forked children vs a model of the documented resolution',
+     'TZDIR (4) x 19 names for load_time_zone and TZDIR (4) x TZ (9) x LOCALTIME (5) for local_time_zone, every cell in its own process: success flag, name(), lookup fingerprint from the independently read file, equality with UTC on failure, default-constructed zone == UTC, repeat load.',
+     'Resolution rules transcribed from time_zone.h and the property; the state of /etc/localtime and /usr/share/zoneinfo is read at run time.', 'DESIGN.md §5 C19'),
+ chk('C20', 'exhaustive harness-owned loader schedules (threads parked inside the user factory) in forked children + rapidcheck sample for k=4',
+     'every order of start/release actions for k <= 3 (thorough: 4) loader threads x every partition into same-name groups x name kinds, followed by repeat loads; the factory itself logs caller-thread identity, invocations per name and in-flight count.',
+     'Schedules are at the granularity "inside the factory / not"; a loader blocked inside cctz is recognised by its /proc task state (bounded poll; unrealised steps are counted, never reported).', 'DESIGN.md §5 C20'),
 ]
 claimed = {c['property_id'] for c in CHECKS}
 MANIFEST = {
